@@ -6,6 +6,7 @@ cells/facets as sets of exact vertex coordinates.
 """
 from __future__ import annotations
 
+import collections
 import itertools
 from fractions import Fraction as Fr
 
@@ -180,14 +181,17 @@ def ops_for(st, bd, level):
                 return
             k0 = cell_keys(m0, kind)
             k1 = cell_keys(m1, kind)
-            if k1 != [k0[c] for c in keep]:
-                bad('cells', f"result cells are not cells {keep} of the operand (as coordinate sets, in order)")
+            # the ORDER of the kept cells in the result is not part of the claim: new cells are matched to old ones by geometry
+            old_of_key = {k0[c]: c for c in keep}
+            if len(k1) != len(keep) or set(k1) != set(old_of_key) or len(set(k1)) != len(k1):
+                bad('cells', f"result cells are not cells {sorted(keep)} of the operand (as coordinate sets)")
                 return
+            cmap = [old_of_key[k] for k in k1]
             if ix is not None and not np.array_equal(m1.p, m0.p[:, ix]):
                 bad('vertex-mapping', "returned vertex mapping does not relate new to old coordinates")
             if not check_valid(m1, kind, bad, hanging=False):
                 return
-            check_tags_same_entities(m0, m1, ident, bad, cell_map=keep)
+            check_tags_same_entities(m0, m1, ident, bad, cell_map=cmap)
             out.outcome(('restrict', len(keep), m0.t.shape[1]))
         if len(S) < nt or True:
             ops.append((f'restrict({list(S)})', lambda m, S=S: m.restrict(np.array(S, dtype=np.int32), return_mapping=True),
@@ -237,7 +241,7 @@ def ops_for(st, bd, level):
                 m1, lst, a, b = res
                 k0 = cell_keys(m0, kind)
                 want = [k0[c] for c in A] + [k0[c] for c in B]
-                if cell_keys(m1, kind) != want:
+                if collections.Counter(cell_keys(m1, kind)) != collections.Counter(want):      # (cell order is not part of the claim)
                     bad('join-cells', f"restrict({list(A)}) + restrict({list(B)}) does not reproduce the cells")
                     return
                 if type(m1) is not type(m0):
